@@ -12,6 +12,10 @@ import IofloModel.Lemmas.ImportsAll0
 import IofloModel.Lemmas.ImportsAll2
 import IofloModel.Lemmas.ImportsAll3
 import IofloModel.Lemmas.ImportsAll4
+import IofloModel.Lemmas.ImportsOpt0
+import IofloModel.Lemmas.ImportsOpt1
+import IofloModel.Lemmas.ImportsOpt2
+import IofloModel.Lemmas.ImportsOpt3
 /-!
 # C01 — every ioflo module imports in a fresh interpreter, in any order
 
@@ -379,6 +383,46 @@ theorem C01_sweeps_same_state_partial (o : List Mod) (ho : o ∈ otherOrders) :
     (∀ x, a.isPresent x = b.isPresent x) ∧ (∀ x, a.isDone x = b.isDone x) ∧
     (∀ x k, a.bound graph x k = b.bound graph x k) ∧ (∀ x k, a.val graph x k = b.val graph x k) :=
   sameNs_val graph _ _ (of_sweepsAgree graph root allSorted o (sweeps_table o ho)).2
+
+/-! ## optional third-party modules -/
+
+/-- the optional modules of the tree (`import X` directly inside a `try` that has handlers, `X` not part of the
+tree), each with the modules of the tree that try to import it -/
+def optionalSites : List (Mod × List Mod) := optChunks.flatten
+
+theorem optChunks_le : optChunks.length ≤ 4 := by decide
+
+theorem opt_table (p : Mod × List Mod) (hp : p ∈ optionalSites) :
+    optOk graph root (staleFrom graph) p = true := by
+  unfold optionalSites at hp
+  obtain ⟨c, hc, hpc⟩ := List.mem_flatten.mp hp
+  obtain ⟨i, hi, rfl⟩ := List.getElem_of_mem hc
+  have hi4 : i < 4 := Nat.lt_of_lt_of_le hi optChunks_le
+  have hget : optChunks.getD i [] = optChunks[i] := by
+    rw [List.getD_eq_getElem?_getD, List.getElem?_eq_getElem hi]
+    rfl
+  have hall : (optChunks.getD i []).all (optOk graph root (staleFrom graph)) = true := by
+    match i, hi4 with
+    | 0, _ => exact optChunk0
+    | 1, _ => exact optChunk1
+    | 2, _ => exact optChunk2
+    | 3, _ => exact optChunk3
+  rw [hget] at hall
+  exact List.all_eq_true.mp hall p hpc
+
+/-- **C01, an optional import never fails the importing module.**  For every optional third-party module `x` of the
+tree and every module `m` (outside D01c) that tries to import it inside a `try`: `m` imports in a fresh interpreter
+on a host where `x` is absent, where `x` imports fine, where `x` is installed but raises ImportError, and where `x`
+raises ModuleNotFoundError for one of its own dependencies.  (The handlers' exception classes come from the source:
+narrowing `except ImportError` to `except ModuleNotFoundError` makes the third variant fail and this table false.) -/
+theorem C01_optional_import_partial (p : Mod × List Mod) (hp : p ∈ optionalSites)
+    (k : OptKind) (hk : k ∈ optKinds graph p.1) (m : Mod) (hm : m ∈ p.2) (hs : staleFrom graph m = false) :
+    (cold (graph.withOpt p.1 k) m).2 = none :=
+  cold_of_optOk graph root (staleFrom graph) p (opt_table p hp) k hk m hm hs
+
+/-- non-vacuity: there are optional sites, and every one has at least three host variants -/
+example : 0 < optionalSites.length ∧ optionalSites.all (fun p => 3 ≤ (optKinds graph p.1).length && 0 < p.2.length) = true := by
+  decide +kernel
 
 /-! ## namespaces of finished modules are stable -/
 
